@@ -57,6 +57,7 @@ SHAPES = [
     ("lalr-late-widening", "S: A | a S S; A: EMPTY;"),
     ("item-then-list", "S: B A; B: b; A: A a | EMPTY;"),
     ("bottom-up-order", "S: B c | d; A: a S; B: b A;"),
+    ("glr-update-span", "S: U Y | V Y | V W k; U: u; V: u; Y: X A; X: t; W: t w; A: EMPTY;"),
 ]
 
 
